@@ -103,7 +103,11 @@ func Run(c *vf.Check) {
 		g := g
 		for part := 0; part < 3; part++ {
 			part := part
-			jobs = append(jobs, func() { runEmbedLens(c, g, part, []int{-1, 0, 1, 2, 127, 128, 254, 255, 256, 257, 300, 380, 381, 382}) })
+			lens := []int{-1, 0, 1, 2, 127, 128, 254, 255, 256, 257, 300, 380, 381, 382}
+			if c.Thorough() {
+				lens = nil // every length -1 .. EmbedLen+8
+			}
+			jobs = append(jobs, func() { runEmbedLens(c, g, part, lens) })
 		}
 	}
 	jobs = append(jobs, func() { runRFC(c) })
@@ -160,6 +164,9 @@ func runPick(c *vf.Check, g *groups.G) {
 	ns := 2000
 	if g.Slow || g.Kind == "G2" || g.Kind == "GT" {
 		ns = 300
+	}
+	if c.Thorough() {
+		ns *= 10
 	}
 	for blk := 0; blk < ns; blk += 100 {
 		blk := blk
@@ -475,6 +482,9 @@ func runHash(c *vf.Check, g *groups.G) {
 	nm := 3000
 	if g.Slow || g.Kind == "G2" {
 		nm = 1000
+	}
+	if c.Thorough() {
+		nm *= 10
 	}
 	for blk := 0; blk < nm; blk += 250 {
 		blk := blk
